@@ -103,7 +103,8 @@ def build(target_props, clean=False):
     # models first (proof-free files): they must be runnable by the
     # correspondence / search steps even when a proof no longer checks
     models = sorted(os.path.relpath(p, COQ)[:-2] + '.vo' for p in
-                    glob.glob(os.path.join(COQ, 'Model', '*.v')))
+                    glob.glob(os.path.join(COQ, 'Model', '*.v')) +
+                    glob.glob(os.path.join(COQ, 'Spec', '*.v')))
     sh(['timeout', '1500', 'make', '-k', '-j12'] + models, cwd=COQ, timeout=1600)
     deps = [f'Props/{target_props}.vo']
     rc, out, err = sh(['timeout', '1500', 'make', '-j12'] + deps, cwd=COQ,
